@@ -31,6 +31,10 @@ type c20Case struct {
 	PadKB int `json:"pad_kb,omitempty"`
 	// Poison: that many messages of fewer than 4 bytes (with a reply subject) precede the burst
 	Poison int `json:"poison,omitempty"`
+	// Subjects > 1: the server listens on that many subjects, requests are spread over them
+	Subjects int `json:"subjects,omitempty"`
+	// DrainMs > 0: the server's connection was opened with nats.DrainTimeout of that many ms
+	DrainMs int `json:"drain_ms,omitempty"`
 }
 
 func genC20(t *rapid.T) c20Case {
@@ -45,6 +49,13 @@ func genC20(t *rapid.T) c20Case {
 	c.Tail = rapid.IntRange(0, 4).Draw(t, "tail")
 	c.OwnConn = rapid.IntRange(0, 3).Draw(t, "own") == 0
 	c.Proto = rapid.SampledFrom([]string{"binary", "compact", "json"}).Draw(t, "proto")
+	c.Subjects = rapid.SampledFrom([]int{1, 1, 2, 3, 4}).Draw(t, "subjects")
+	if c.Subjects > 1 && c.Tail < c.Subjects {
+		c.Tail = c.Subjects // at least one late request per subject
+	}
+	if rapid.IntRange(0, 3).Draw(t, "drain?") == 0 {
+		c.DrainMs = rapid.SampledFrom([]int{20, 100, 300}).Draw(t, "drainms")
+	}
 	if rapid.IntRange(0, 2).Draw(t, "poison?") == 0 {
 		c.Poison = rapid.IntRange(1, 6).Draw(t, "poison")
 	}
@@ -70,6 +81,12 @@ func classifyC20(c c20Case) ev.Class {
 	}
 	if c.Poison > 0 {
 		labels = append(labels, "malformed-messages-before-the-burst")
+	}
+	if c.Subjects > 1 {
+		labels = append(labels, "several-subjects")
+	}
+	if c.DrainMs > 0 {
+		labels = append(labels, "short-drain-timeout")
 	}
 	if c.PadKB > 0 && len(c.Durations)*c.PadKB > 1024*(c.QueueLen+1) {
 		labels = append(labels, "pending-bytes>queue-length-MiB")
@@ -113,7 +130,17 @@ func execC20Inner(c c20Case) *ev.Failure {
 		},
 		fire: func(ctx frugal.FContext, v string) error { return nil },
 	}
-	sconn, err := natsConnect()
+	var sconn *nats.Conn
+	var err error
+	if c.DrainMs > 0 {
+		u, uerr := natsURL()
+		if uerr != nil {
+			return ev.Failf("harness:nats", "%v", uerr)
+		}
+		sconn, err = nats.Connect(u, nats.NoReconnect(), nats.DrainTimeout(time.Duration(c.DrainMs)*time.Millisecond))
+	} else {
+		sconn, err = natsConnect()
+	}
 	if err != nil {
 		return ev.Failf("harness:nats", "%v", err)
 	}
@@ -139,11 +166,15 @@ func execC20Inner(c c20Case) *ev.Failure {
 	defer rsub.Unsubscribe()
 	rconn.Flush()
 
-	srv := frugal.NewFNatsServerBuilder(sconn, newSvcProcessor(h), pf, []string{subj}).
+	subjects := []string{subj}
+	for k := 1; k < c.Subjects; k++ {
+		subjects = append(subjects, fmt.Sprintf("%s.s%d", subj, k))
+	}
+	srv := frugal.NewFNatsServerBuilder(sconn, newSvcProcessor(h), pf, subjects).
 		WithWorkerCount(uint(c.Workers)).WithQueueLength(uint(c.QueueLen)).Build()
 	served := make(chan error, 1)
 	go func() { served <- srv.Serve() }()
-	for i := 0; i < 2000 && sconn.NumSubscriptions() == 0; i++ {
+	for i := 0; i < 2000 && sconn.NumSubscriptions() < len(subjects); i++ {
 		time.Sleep(200 * time.Microsecond)
 	}
 	if err := sconn.Flush(); err != nil {
@@ -159,7 +190,7 @@ func execC20Inner(c c20Case) *ev.Failure {
 		}
 		frame := refFrame(frameContent(hdrs,
 			thriftMessage(c.Proto, "echo", thrift.CALL, &strStruct{Name: "echo_args", ID: 1, V: &v})))
-		pconn.PublishRequest(subj, inbox+"."+kind+strconv.Itoa(i), frame)
+		pconn.PublishRequest(subjects[i%len(subjects)], inbox+"."+kind+strconv.Itoa(i), frame)
 	}
 	for i := 0; i < c.Poison; i++ {
 		pconn.PublishRequest(subj, inbox+".poison"+strconv.Itoa(i), []byte{0, 0, 1}[:i%4%3+0])
